@@ -97,7 +97,7 @@ UNITS = {
     "server": {
         "uses": [],
         "preludes": ["shims/core.rs", "shims/bytes.rs", "shims/env.rs", "shims/io.rs", "shims/cursor.rs"],
-        "specs": ["contracts/spec/hv.rs", "contracts/spec/crlf.rs", "contracts/spec/request.rs", "contracts/spec/http.rs", "contracts/spec/lookup.rs", "contracts/spec/cors.rs", "contracts/spec/headers.rs", "contracts/spec/frames.rs", "contracts/spec/app.rs", "contracts/spec/server.rs"],
+        "specs": ["contracts/spec/hv.rs", "contracts/spec/crlf.rs", "contracts/spec/request.rs", "contracts/spec/request_read.rs", "contracts/spec/http.rs", "contracts/spec/lookup.rs", "contracts/spec/cors.rs", "contracts/spec/headers.rs", "contracts/spec/frames.rs", "contracts/spec/app.rs", "contracts/spec/server.rs"],
         "sources": [
             SYMBOL_SRC,
             ("src/http/mod.rs", ["struct:Version", "const:VERSION"]),
@@ -121,7 +121,7 @@ UNITS = {
     },
     "request_parse": {
         "preludes": ["shims/core.rs", "shims/bytes.rs", "shims/io.rs", "shims/cursor.rs"],
-        "specs": ["contracts/spec/hv.rs", "contracts/spec/lookup.rs", "contracts/spec/crlf.rs", "contracts/spec/request.rs"],
+        "specs": ["contracts/spec/hv.rs", "contracts/spec/lookup.rs", "contracts/spec/crlf.rs", "contracts/spec/request.rs", "contracts/spec/request_read.rs", "contracts/spec/request_gen.rs", "contracts/spec/request_thm.rs"],
         "sources": [
             SYMBOL_SRC,
             ("src/http/mod.rs", ["struct:Version", "const:VERSION", "struct:HTTP", "fn:HTTP::version_list"]),
@@ -474,8 +474,16 @@ PROPS = {
             "Request::get_header / postcondition / first header whose name matches up to letter case",
             "Request::parse_http_request_header_string / postcondition / hv(res) == header_of_line(line)  (value = everything after the first ': ')",
             "Request::generate / postcondition / res@ == utf8_bytes(request_head(..)) + body",
+            "Request::cursor_read / postcondition / (Ok?, request afterwards, cursor afterwards) == req_read(cursor, iteration, request before): the recursive line reader as a spec function; Request::parse == parse_request_spec",
+            "theorem_request_accept_iff / parsing succeeds exactly when the first line is valid UTF-8 and a well-formed request line",
+            "theorem_request_roundtrip / parse_request_spec(utf8(request_head(m, u, v, hs)) ++ body) == Some(m, u, v, hs, body) for every well-formed request",
         ],
-        "assumptions": ["the serialise-then-parse round trip itself is NOT proved (the two halves are proved against their specifications separately)"],
+        "assumptions": [
+            "round-trip domain (the theorem's preconditions): method, target and version are non-empty words without space / CR / LF that start and end with a non-blank character, method and version are registered (up to letter case); header names and values hold no CR / LF, names hold no ': ' and do not end in ':'; any number of headers; the body is an arbitrary byte string",
+            "stated on the bytes rather than derived: the UTF-8 bytes of the request line and of each header line hold no 0x0A (follows from 'no LF character' for real UTF-8)",
+            "the request line is rejected as a whole only on the FIRST line: a later line that is not UTF-8 ends the header section (the reader swallows that error and reads the rest as body) - this is what req_read says and the code does",
+            "str::trim / split_once / String::from_utf8 / Cursor::read_until / read_to_end as assumed in shims (conformance-tested); UTF-8 facts are vstd's proved lemmas",
+        ],
     },
     "C04": {
         "units": ["server", "request_parse", "range_parse", "static", "app", "controllers", "log", "forms", "multipart"],
